@@ -167,7 +167,7 @@ what is proved is that nothing earlier in the generated order claims a file with
 what the LIS test says — `LIS`, `LISt`, `LIStr` or nothing.  Missing for the full statement "every valid LIS file is
 identified as LIS/LISt/LIStr": `lisT b ≠ none` for files written by `File.FileWrite`; that part is exercised by the
 oracle on generated files.) -/
-theorem lis_identified_partial (lisT : Bytes → LisRes) (datP : Bytes → Bool) (b : Bytes) (h : LisHead b) :
+theorem lis_family_identified_partial (lisT : Bytes → LisRes) (datP : Bytes → Bool) (b : Bytes) (h : LisHead b) :
     identify lisT datP b = (lisT b).code := by
   obtain ⟨h0, hbytes, h4, h16, hnb, hhi⟩ := h
   cases b with
@@ -198,16 +198,16 @@ theorem lis_identified_partial (lisT : Bytes → LisRes) (datP : Bytes → Bool)
     · simp [hc]
 
 /-- plain LIS -/
-theorem lis_identified (lisT : Bytes → LisRes) (datP : Bytes → Bool) (b : Bytes) (h : LisHead b) (hl : lisT b = .lis) :
-    identify lisT datP b = "LIS" := by rw [lis_identified_partial lisT datP b h, hl]; rfl
+theorem lis_identified_partial (lisT : Bytes → LisRes) (datP : Bytes → Bool) (b : Bytes) (h : LisHead b) (hl : lisT b = .lis) :
+    identify lisT datP b = "LIS" := by rw [lis_family_identified_partial lisT datP b h, hl]; rfl
 
 /-- LIS with TIF markers (first record not exactly 276 bytes: `LisHead.not_bit`) -/
-theorem list_identified (lisT : Bytes → LisRes) (datP : Bytes → Bool) (b : Bytes) (h : LisHead b) (hl : lisT b = .list) :
-    identify lisT datP b = "LISt" := by rw [lis_identified_partial lisT datP b h, hl]; rfl
+theorem list_identified_partial (lisT : Bytes → LisRes) (datP : Bytes → Bool) (b : Bytes) (h : LisHead b) (hl : lisT b = .list) :
+    identify lisT datP b = "LISt" := by rw [lis_family_identified_partial lisT datP b h, hl]; rfl
 
 /-- LIS with reversed TIF markers -/
-theorem listr_identified (lisT : Bytes → LisRes) (datP : Bytes → Bool) (b : Bytes) (h : LisHead b) (hl : lisT b = .listr) :
-    identify lisT datP b = "LIStr" := by rw [lis_identified_partial lisT datP b h, hl]; rfl
+theorem listr_identified_partial (lisT : Bytes → LisRes) (datP : Bytes → Bool) (b : Bytes) (h : LisHead b) (hl : lisT b = .listr) :
+    identify lisT datP b = "LIStr" := by rw [lis_family_identified_partial lisT datP b h, hl]; rfl
 
 /-- a plain file header record (PR length 62, type 128, name `RUNOne.lis`, filler NUL) has a LIS head -/
 example : LisHead [0, 62, 0, 0, 128, 0, 82, 85, 78, 79, 110, 101, 46, 108, 105, 115, 0, 0, 83, 117] :=
@@ -377,5 +377,133 @@ example : SUL.Conformant ⟨[32, 32, 32, 49], 48, 48, [32, 56, 49, 57, 50], List
 /-- sequence number `0010` and maximum record length `04096` (the forms of defect F4) are conformant too -/
 example : PadNumField 4 [48, 48, 49, 48] ∧ PadNumField 5 [48, 52, 48, 57, 54] :=
   ⟨⟨rfl, [48, 48], 49, [48], rfl, by decide, by decide, by decide⟩, ⟨rfl, [48], 52, [48, 57, 54], rfl, by decide, by decide, by decide⟩⟩
+
+
+/-! ## Recognition: DAT -/
+
+/-- printable ASCII text (`string.printable`) -/
+def Printable (b : Bytes) : Prop := ∀ x ∈ b, (9 ≤ x ∧ x ≤ 13) ∨ (32 ≤ x ∧ x ≤ 126)
+
+/-- **DAT, relative to the trial parse** (`_partial`: `DAT_parser.can_parse_file` is the abstract `datP`).  A printable
+ASCII text of at least 12 bytes that starts with a channel mnemonic character (`A-Z0-9`), whose fifth byte is not `V`
+(its first line does not imitate a storage unit label: `0001V1 00RECORD …` would be taken for RP66V1, which comes first
+in the table) and which the DAT trial parse accepts, is identified as `DAT`: no earlier test of the generated order
+claims it, and the later `ASCII` test does not get a chance.
+Missing for the full statement "every valid DAT file is identified as DAT": `datP b = true` for generated DAT texts
+(exercised by the oracle). -/
+theorem dat_identified_partial (lisT : Bytes → LisRes) (datP : Bytes → Bool) (c0 c1 c2 c3 : Nat) (r : Bytes)
+    (htok : (65 ≤ c0 ∧ c0 ≤ 90) ∨ (48 ≤ c0 ∧ c0 ≤ 57))
+    (hp : Printable (c0 :: c1 :: c2 :: c3 :: r)) (hlen : 12 ≤ (c0 :: c1 :: c2 :: c3 :: r).length)
+    (h4 : byteAt (c0 :: c1 :: c2 :: c3 :: r) 4 ≠ 86)
+    (hdat : datP (c0 :: c1 :: c2 :: c3 :: r) = true) :
+    identify lisT datP (c0 :: c1 :: c2 :: c3 :: r) = "DAT" := by
+  have hc3 := hp c3 (by simp)
+  rw [identify_skip_magic4 lisT datP c0 c1 c2 c3 r (by omega) (by omega)]
+  generalize hb : c0 :: c1 :: c2 :: c3 :: r = b at *
+  have hby : ∀ i, i < 12 → 9 ≤ byteAt b i ∧ byteAt b i ≤ 126 := by
+    intro i hi
+    have := hp _ (byteAt_mem b i (by omega))
+    omega
+  have h8 := hby 8 (by omega); have h9 := hby 9 (by omega); have h10 := hby 10 (by omega); have h11 := hby 11 (by omega)
+  have hbytes : ∀ x ∈ b, x < 256 := fun x hx => by have := hp x hx; omega
+  have hbit := bit_fail b (thirdWord_ne b hbytes (by unfold word288; omega))
+  have hws : isWs c0 = false := by simp [isWs]; omega
+  have hlas : ∀ pfx, lasTest pfx b = "" := fun pfx =>
+    las_fail pfx b c0 (c1 :: c2 :: c3 :: r) (by rw [← hb]; simp [List.dropWhile, hws]) (by omega) (by omega)
+  have hv1 := rp66v1Test_fail b h4
+  have ht := rp66v1Tif_fail_next b (by omega)
+  have htr := rp66v1TifR_fail_next b (by omega)
+  have hv2 := rp66v2_fail b h4
+  have hall : b.all (fun c => decide (c < 128)) = true := by
+    rw [List.all_eq_true]; intro x hx; have := hp x hx; simp; omega
+  have hd : datTest datP b = "DAT" := by simp [datTest, hall, hdat]
+  simp only [tests, List.filter, isMagic, Bool.not_true, Bool.not_false, firstMatch, runTest, hbit, hlas, hv1, ht, htr, hv2, hd]
+  rfl
+
+/-- `UTIM Unix Time sec` starts a DAT text: printable, 12 bytes or more, fifth byte a blank -/
+example : Printable [85, 84, 73, 77, 32, 85, 110, 105, 120, 32, 84, 105, 109, 101] ∧
+    byteAt [85, 84, 73, 77, 32, 85, 110, 105, 120, 32, 84, 105, 109, 101] 4 ≠ 86 := by
+  constructor
+  · unfold Printable; decide
+  · decide
+
+
+/-! ## Recognition: LAS -/
+
+/-- **LAS 1.2 / 2.0 / 3.0, at the level of the line scanner** (`_partial`).  If the first two non-empty lines of the
+file (after cutting `#` comments and stripping) are a `~V…` line and a version line `VERS . <number> : …` whose number
+starts with `1.2`, `2.0` or `3.0`, then the file is identified as `LAS1.2`, `LAS2.0`, `LAS3.0` respectively: no
+magic-number test and no BIT test claims it first (bytes 8..11 of a text do not spell the word 288), and an earlier LAS
+version does not shadow a later one.
+Missing for the full statement "every `print c ℓ` of the LAS writer/layout family is identified": the hypotheses are
+stated with the model's own `lasLines`/`versGroup` (the transcription of the loop of `_las` and of
+`RE_LAS_VERSION_LINE`) rather than with an independent printer of LAS layouts; the printer side is exercised by the
+oracle (generated layouts) and the `example`s below evaluate the whole chain on concrete texts. -/
+theorem las_identified_partial (lisT : Bytes → LisRes) (datP : Bytes → Bool) (b l0 l1 : Bytes) (ls : List Bytes) (d pfx : Bytes)
+    (hb : ∀ x ∈ b, x < 256) (hnb : ¬ word288 b)
+    (hl : lasLines b = l0 :: l1 :: ls) (h0 : l0.take 2 = [126, 86]) (hv : versGroup l1 = some d)
+    (hp : pfx = [49, 46, 50] ∨ pfx = [50, 46, 48] ∨ pfx = [51, 46, 48]) (hd : d.take 3 = pfx) :
+    identify lisT datP b = "LAS" ++ codeOfBytes pfx := by
+  have heval : ∀ q : Bytes, lasTest q b = if d.take q.length == q then "LAS" ++ codeOfBytes q else "" := by
+    intro q
+    unfold lasTest
+    rw [hl]
+    simp only [h0, hv]
+    simp
+  cases b with
+  | nil => simp [lasLines, splitNl, lasLine, strip, stripEnd] at hl
+  | cons c0 r =>
+    have hc0 : isWs c0 = true ∨ c0 = 35 ∨ c0 = 126 := by
+      by_cases hws : isWs c0 = true
+      · exact Or.inl hws
+      · by_cases h35 : c0 = 35
+        · exact Or.inr (Or.inl h35)
+        · right; right
+          have hws' : isWs c0 = false := by simpa using hws
+          obtain ⟨u, ls', hh⟩ := lasLines_head (c0 :: r) c0 r (by simp [List.dropWhile, hws']) h35
+          rw [hl] at hh
+          have : l0 = c0 :: u := (List.cons.inj hh).1
+          rw [this] at h0
+          cases u <;> simp at h0 <;> omega
+    have hmag : notMagicFirst c0 := by
+      unfold notMagicFirst
+      rcases hc0 with h | h | h
+      · simp [isWs] at h; omega
+      · omega
+      · omega
+    rw [identify_skip_magic lisT datP c0 r hmag]
+    have hbit := bit_fail (c0 :: r) (thirdWord_ne _ hb hnb)
+    simp only [tests, List.filter, isMagic, Bool.not_true, Bool.not_false, firstMatch, runTest, hbit, heval]
+    rcases hp with rfl | rfl | rfl
+    · simp [hd]
+    · simp [hd]
+    · simp [hd]
+
+theorem las12_identified_partial (lisT : Bytes → LisRes) (datP : Bytes → Bool) (b l0 l1 : Bytes) (ls : List Bytes) (d : Bytes)
+    (hb : ∀ x ∈ b, x < 256) (hnb : ¬ word288 b)
+    (hl : lasLines b = l0 :: l1 :: ls) (h0 : l0.take 2 = [126, 86]) (hv : versGroup l1 = some d) (hd : d.take 3 = [49, 46, 50]) :
+    identify lisT datP b = "LAS1.2" :=
+  las_identified_partial lisT datP b l0 l1 ls d _ hb hnb hl h0 hv (Or.inl rfl) hd
+
+theorem las20_identified_partial (lisT : Bytes → LisRes) (datP : Bytes → Bool) (b l0 l1 : Bytes) (ls : List Bytes) (d : Bytes)
+    (hb : ∀ x ∈ b, x < 256) (hnb : ¬ word288 b)
+    (hl : lasLines b = l0 :: l1 :: ls) (h0 : l0.take 2 = [126, 86]) (hv : versGroup l1 = some d) (hd : d.take 3 = [50, 46, 48]) :
+    identify lisT datP b = "LAS2.0" :=
+  las_identified_partial lisT datP b l0 l1 ls d _ hb hnb hl h0 hv (Or.inr (Or.inl rfl)) hd
+
+/-- `# c\n~Version\n VERS .   2.0  : x\n` : comment line first, blanks around the dot and the colon -/
+example : identify (fun _ => .none) (fun _ => false)
+    [35, 32, 99, 10, 126, 86, 101, 114, 115, 105, 111, 110, 10, 32, 86, 69, 82, 83, 32, 46, 32, 32, 32, 50, 46, 48, 32, 32, 58, 32, 120, 10] = "LAS2.0" := by
+  decide
+
+/-- `~V\r\nVERS.\t1.20:\r\n` -/
+example : identify (fun _ => .none) (fun _ => false)
+    [126, 86, 13, 10, 86, 69, 82, 83, 46, 9, 49, 46, 50, 48, 58, 13, 10] = "LAS1.2" := by
+  decide
+
+/-- the hypotheses of `las20_identified_partial` are satisfiable -/
+example : lasLines [126, 86, 10, 86, 69, 82, 83, 46, 32, 50, 46, 48, 58] = [[126, 86], [86, 69, 82, 83, 46, 32, 50, 46, 48, 58]] ∧
+    versGroup [86, 69, 82, 83, 46, 32, 50, 46, 48, 58] = some [50, 46, 48] := by
+  decide
 
 end TD.C20
